@@ -507,6 +507,86 @@ func runC16(c hx.Config) error {
 			o.Emit(fmt.Sprintf("c16 xmul %s %s #direct", e.tok, e2.tok), hx.B01(validate.MultipleOf(e.val, e2.val)))
 		}
 	}
+	// (5) the BigInt schema: every comparison method, the sign shorthands and MultipleOf, with a
+	// *big.Int bound next to the value; judged against the comparison / divisibility of the integers.
+	var bigVals []*big.Int
+	for _, e := range []uint{0, 1, 7, 31, 52, 53, 54, 62, 63, 64, 65, 100, 127, 128, 1023, 1024, 1025, 2000} {
+		p := new(big.Int).Lsh(big.NewInt(1), e)
+		for d := int64(-2); d <= 2; d++ {
+			v := new(big.Int).Add(p, big.NewInt(d))
+			bigVals = append(bigVals, v, new(big.Int).Neg(v))
+		}
+	}
+	for _, t := range []string{"0", "10000005", "10000000", "1000000000000000000000000000000", "999999999999999999999999999999", "18446744073709551615", "9007199254740993"} {
+		v, _ := new(big.Int).SetString(t, 10)
+		bigVals = append(bigVals, v, new(big.Int).Neg(v))
+	}
+	bigSchemas := []func() any{func() any { return gozod.BigInt() }, func() any { return gozod.BigIntPtr() }}
+	runBig := func(variant int, method string, bound *big.Int, v *big.Int) (bool, string) {
+		var acc bool
+		pm := hx.Safely(func() {
+			sc := reflect.ValueOf(bigSchemas[variant]())
+			var args []reflect.Value
+			if bound != nil {
+				args = append(args, reflect.ValueOf(new(big.Int).Set(bound)))
+			}
+			s2 := sc.MethodByName(method).Call(args)[0]
+			res := s2.MethodByName("Parse").Call([]reflect.Value{reflect.ValueOf(new(big.Int).Set(v))})
+			acc = res[1].IsNil()
+		})
+		return acc, pm
+	}
+	n5 := 3
+	if thorough {
+		n5 = 40
+	}
+	for _, v := range bigVals {
+		for j := 0; j < n5; j++ {
+			b := new(big.Int).Add(v, big.NewInt(int64(r.Intn(5)-2)))
+			if r.Chance(30) {
+				b = hx.Pick(r, bigVals)
+			}
+			op := hx.Pick(r, cmpOps)
+			variant := r.Intn(2)
+			m := hx.Pick(r, opMethods[op])
+			how := fmt.Sprintf("schema:%d:false:", variant)
+			acc, pm := runBig(variant, m, b, v)
+			ob := hx.B01(acc)
+			if pm != "" {
+				ob = "panic " + pm
+			}
+			o.Emit(fmt.Sprintf("c16 xcmp %s big %s big %s #%s", op, v.String(), b.String(), how+m), ob)
+			o.Count("xcmp:s:big:big")
+			// directly, and against every built-in integer kind that holds the bound
+			o.Emit(fmt.Sprintf("c16 xcmp %s big %s big %s #direct", op, v.String(), b.String()), hx.B01(directCmp(op, v, b)))
+			// sign shorthand
+			sm := signMethods[op]
+			acc, pm = runBig(variant, sm, nil, v)
+			ob = hx.B01(acc)
+			if pm != "" {
+				ob = "panic " + pm
+			}
+			o.Emit(fmt.Sprintf("c16 xcmp %s big %s big 0 #%s", op, v.String(), how+sm), ob)
+			// MultipleOf
+			d := hx.Pick(r, []*big.Int{big.NewInt(2), big.NewInt(3), big.NewInt(-2), big.NewInt(10), big.NewInt(0), big.NewInt(1), big.NewInt(10000000), new(big.Int).Lsh(big.NewInt(1), 53), new(big.Int).Lsh(big.NewInt(1), 64), new(big.Int).Set(v)})
+			acc, pm = runBig(variant, "MultipleOf", d, v)
+			ob = hx.B01(acc)
+			if pm != "" {
+				ob = "panic " + pm
+			}
+			o.Emit(fmt.Sprintf("c16 xmul big %s big %s #%s", v.String(), d.String(), how+"MultipleOf"), ob)
+			o.Count("xmul:s:big:big")
+			// a big value against a built-in bound and the other way round (validate, directly)
+			k := hx.Pick(r, all)
+			pv := hx.Pick(r, grids[k.name])
+			o.Emit(fmt.Sprintf("c16 xcmp %s big %s %s #direct", op, v.String(), pv.token()), hx.B01(directCmp(op, v, pv.goValue())))
+			o.Emit(fmt.Sprintf("c16 xcmp %s %s big %s #direct", op, pv.token(), v.String()), hx.B01(directCmp(op, pv.goValue(), v)))
+			if !k.float {
+				o.Emit(fmt.Sprintf("c16 xmul big %s %s #direct", v.String(), pv.token()), hx.B01(validate.MultipleOf(v, pv.goValue())))
+				o.Emit(fmt.Sprintf("c16 xmul %s big %s #direct", pv.token(), v.String()), hx.B01(validate.MultipleOf(pv.goValue(), v)))
+			}
+		}
+	}
 	return o.Close(map[string]any{"seed": c.Seed, "tier": c.Tier})
 }
 
